@@ -47,6 +47,7 @@ def run(fb, rep, tier):
     c3_cache(fb, rep)
     c4_symmetry(fb, rep)
     c5_accumulator(fb, rep)
+    c6_invalidate_current(fb, rep)
 
 
 # SIMD kernels are selected by compile definitions: the thorough tier re-runs the rules on these builds too
@@ -617,3 +618,38 @@ def c5_accumulator(fb, rep):
         full = [e for e in calls if (_strip(e['args'][5]) or {}).get('cv') == 0]
         rep.ob(clause, 'K10 sibling agreement', 'computeL1WB: the incremental update and the full refresh both go through addSubWeights (the refresh with an empty subtract list)',
                len(calls) >= 2 and len(full) >= 1 and len(full) < len(calls), f.where, '%d calls, %d with a constant-empty subtract list' % (len(calls), len(full)), f.sname)
+
+
+# --------------------------------------------------------------------------- .6 invalidation addresses the state in use
+
+def c6_invalidate_current(fb, rep):
+    """K2 order: the first-layer state is addressed through the stack index (getLinState reads stackTop).  A
+    method that invalidates "the current state" and also moves the index must move the index first: an
+    invalidation followed by an index write clears an entry that is no longer current and leaves the entry that
+    will be used with stale accumulators and a king square that still looks computed."""
+    clause = 'C07.6'
+    n = 0
+    for f in sorted(fb.funcs.values(), key=lambda x: x.key):
+        if not f.has_cfg or strip_t(f.d.get('cls') or '') != 'NNEvaluator':
+            continue
+        clears = [(b, i, e) for b, i, e in f.events() if e.get('k') == 'call' and cname(e).endswith('FirstLayerState::clear') and
+                  any(n_.get('k') == 'call' and cname(n_) == 'NNEvaluator::getLinState' for n_ in walk(e.get('recv') or {}))]
+        if not clears:
+            continue
+
+        def writes_index(ev):
+            if ev is None:
+                return False
+            tgt = ev.get('l') if ev.get('k') == 'asg' else ev.get('e') if ev.get('k') == 'incdec' else None
+            return tgt is not None and (ap(tgt) or '').endswith('stack.stackTop')
+        for b, i, e in clears:
+            n += 1
+            w = f.path_avoiding((b, i), writes_index, R.never)
+            rep.ob(clause, 'K2 order', '%s: the state it invalidates is still the current one when it returns (no stack-index write after the invalidation)' % f.sname, w is None,
+                   R.site(f, e), '' if w is None else 'the stack index is written afterwards at %s' % (w[-1],), f.sname)
+    rep.floor(clause, 'invalidations of the current first-layer state', n, 1)
+
+
+def strip_t(s):
+    from ..core import strip_targs
+    return strip_targs(s)
